@@ -66,10 +66,10 @@ def check(ctx):
     ctx.floor("C09.b", n, 3, "shared C02.a obligations")
     # ---- C09.c replay position ----
     ctx.touch(R)
-    runs = lib.call_blocks(R, lib.ends(A.TABLE["callback_run"]))
-    inserts = lib.call_blocks(R, lib.ends(A.TABLE["storage_insert"]))
-    q = A.TABLE["queue_type"]
-    removes = [b for b in lib.call_blocks(R, lambda n: lib.tail(n, 2) == q + "::remove") if any(R.dominates(r, b) for r in runs)]
+    runs = lib.call_blocks(R, lib.ends(A.names(prog)["callback_run"]))
+    inserts = lib.call_blocks(R, lib.ends(A.names(prog)["storage_insert"]))
+    q = A.names(prog)["queue_type"]
+    removes = [b for b in lib.call_blocks(R, lambda n: lib.tail(n, 2) == A.names(prog)["queue_detach"]) if any(R.dominates(r, b) for r in runs)]
     retains = [b for b, t, fr in R.iter_calls() if fr and mir.strip_generics(mir.fn_name(fr)).endswith(("VecDeque::retain", "VecDeque::retain_mut"))]
     ok = bool(removes) and bool(inserts) and bool(retains)
     if ok:
